@@ -50,6 +50,8 @@ pub struct Pda {
     pending: Option<(usize, usize, u32)>,
     pub anomalies: Vec<Anomaly>,
     pub max_depth: usize,
+    /// list also what a parse under relaxed options may report (see `element_done`)
+    pub relaxed: bool,
 }
 
 fn ws(c: char) -> bool { matches!(c, ' ' | '\t' | '\n' | '\r') }
@@ -57,7 +59,7 @@ fn num_final(n: Num) -> bool { matches!(n, Num::Zero | Num::Int | Num::Frac | Nu
 
 impl Pda {
     pub fn new() -> Self {
-        Pda { stack: vec![], ph: Ph::ValueStart { close: false }, cp: 0, esc_start: 0, pending: None, anomalies: vec![], max_depth: 0 }
+        Pda { stack: vec![], ph: Ph::ValueStart { close: false }, cp: 0, esc_start: 0, pending: None, anomalies: vec![], max_depth: 0, relaxed: false }
     }
 
     /// Is the text consumed so far a complete JSON text?
@@ -83,7 +85,8 @@ impl Pda {
 
     fn element_done(&mut self, cp: Option<u32>, start: usize, end: usize) {
         // cp: Some(code unit) for a \u escape, None for a raw character or a two-character escape
-        match (self.pending.take(), cp) {
+        let pend = self.pending.take();
+        match (pend, cp) {
             (Some((hs, _he, high)), Some(cp)) => {
                 if !(0xdc00..=0xdfff).contains(&cp) {
                     self.anomalies.push(Anomaly { kind: AnomalyKind::InvalidLow(high as u16, cp), start: hs, end });
@@ -95,6 +98,19 @@ impl Pda {
                 else if (0xdc00..=0xdfff).contains(&cp) { self.anomalies.push(Anomaly { kind: AnomalyKind::InvalidCp(cp), start, end }); }
             }
             (None, None) => {}
+        }
+        if self.relaxed {
+            // Under relaxed options a tolerated anomaly lets the parse go on, and what the next
+            // escape then counts as is not documented. The list becomes a superset of what may
+            // be reported: a high surrogate escape that follows a tolerated high surrogate may
+            // be reported on its own as an invalid code point, or become the pending high
+            // surrogate itself. Units and spans of whatever *is* reported stay checked.
+            if let (Some(_), Some(cp)) = (pend, cp) {
+                if (0xd800..=0xdbff).contains(&cp) {
+                    self.anomalies.push(Anomaly { kind: AnomalyKind::InvalidCp(cp), start, end });
+                    self.pending = Some((start, end, cp));
+                }
+            }
         }
     }
 
@@ -227,8 +243,12 @@ pub struct ModelRun {
     pub phase_at_end: usize,
 }
 
-pub fn run_model(items: &[(char, usize)]) -> ModelRun {
+pub fn run_model(items: &[(char, usize)]) -> ModelRun { run_model_with(items, false) }
+
+/// `relaxed`: the parse runs under options other than the strict ones.
+pub fn run_model_with(items: &[(char, usize)], relaxed: bool) -> ModelRun {
     let mut pda = Pda::new();
+    pda.relaxed = relaxed;
     let mut off = 0usize;
     let mut offs = Vec::with_capacity(items.len() + 1);
     let mut reject = None;
